@@ -994,6 +994,34 @@ func OpYield(site int) {
 	s.inOp = false
 }
 
+// BlockedAt reports whether some task is currently blocked at a site whose name
+// contains sub (e.g. the trigger goroutine waiting in interp.go's select).
+//
+//go:norace
+func BlockedAt(sub string) bool {
+	s := cur
+	if s == nil {
+		return false
+	}
+	for i := 0; i < s.ntasks; i++ {
+		t := &s.tasks[i]
+		if t.state == tsBlocked && containsStr(SiteName(t.blockSite), sub) {
+			return true
+		}
+	}
+	return false
+}
+
+//go:norace
+func containsStr(s, sub string) bool {
+	for i := 0; i+len(sub) <= len(s); i++ {
+		if s[i:i+len(sub)] == sub {
+			return true
+		}
+	}
+	return false
+}
+
 // Site names are registered by generated code in the instrumented packages.
 var siteNames [maxSites]string
 
